@@ -4,6 +4,7 @@ import (
 	"bytes"
 	"fmt"
 	"io"
+	"math"
 	"strconv"
 	"strings"
 
@@ -38,6 +39,18 @@ func NewCypherEmitter(stripLiterals bool) Emitter {
 	return Emitter{
 		StripLiterals: stripLiterals,
 	}
+}
+
+// formatFloatLiteral writes a floating point value so that it reads back as a floating point literal: an
+// integral value keeps a fractional part (1000.0), otherwise the text would denote an integer.
+func formatFloatLiteral(value float64) string {
+	text := strconv.FormatFloat(value, 'f', -1, 64)
+
+	if !math.IsInf(value, 0) && !math.IsNaN(value) && !strings.Contains(text, ".") {
+		text += ".0"
+	}
+
+	return text
 }
 
 func (s Emitter) formatNodePattern(output io.Writer, nodePattern *cypher.NodePattern) error {
@@ -430,12 +443,12 @@ func (s Emitter) formatLiteral(output io.Writer, literal *cypher.Literal) error 
 		}
 
 	case float32:
-		if _, err := io.WriteString(output, strconv.FormatFloat(float64(typedLiteral), 'f', -1, 64)); err != nil {
+		if _, err := io.WriteString(output, formatFloatLiteral(float64(typedLiteral))); err != nil {
 			return err
 		}
 
 	case float64:
-		if _, err := io.WriteString(output, strconv.FormatFloat(typedLiteral, 'f', -1, 64)); err != nil {
+		if _, err := io.WriteString(output, formatFloatLiteral(typedLiteral)); err != nil {
 			return err
 		}
 
